@@ -264,7 +264,7 @@ def walk_code(code, path=()):
                 yield x
 
 
-def corpus(tier, seed, want=("g1", "g2", "g3", "g4")):
+def corpus(tier, seed, want=("g1", "g2", "g3", "g4"), g4_limit="default"):
     """Top-level compiled units [(id, code, recipe)]."""
     full = tier == "thorough"
     items = []
@@ -305,7 +305,7 @@ def corpus(tier, seed, want=("g1", "g2", "g3", "g4")):
         units += compile_all(g1 if full else g1[::3], flag_sets=(_future_annotations_flag(),))
     if "g4" in want:
         import warnings
-        for fn in g4_stdlib_files(None if full else 24, seed):
+        for fn in g4_stdlib_files((None if full else 24) if g4_limit == "default" else g4_limit, seed):
             try:
                 with open(fn, "rb") as f:
                     src = f.read()
